@@ -11,7 +11,9 @@
 //   pre    none | intact_old | corrupt_old | dir (directory at the block path: rename fails)
 //          | nodir (regular file where the block directory should be: mkdir fails)
 //   n      block size in chunks of the writer's copy loop: 0 (empty), 1 (small), 3 (80 KiB)
-//   mode   none | kill | killack | cancel | werr
+//   mode   none | kill | killack | cancel | werr | index (GET /index runs concurrently with the PUT, turn by
+//          turn in the order `steps` gives: schedules of KeepVolume.tla, scheduler of hooks.go; the lines
+//          it returned are judged by the contract's index clause at every instant of the write)
 //   point  yield-point label, occ = which arrival at it
 //
 // kill / killack run the PUT in a CHILD process (this test binary re-executed with
@@ -55,6 +57,10 @@ type vC02Scn struct {
 	Point string `json:"point"`
 	Occ   int    `json:"occ"`
 	CK    string `json:"ck"` // corruption kind of pre = corrupt_old
+	Steps []struct {
+		A string `json:"a"`
+		L string `json:"l"`
+	} `json:"steps"` // mode "index": whose turn it is (w = the PUT, x = GET /index), from KeepVolume.tla
 }
 
 type vC02Child struct {
@@ -231,6 +237,110 @@ func vC02Observe(srv *vksServer, scn *vC02Scn, log func(map[string]interface{}))
 		}
 	}
 	log(map[string]interface{}{"ev": "dirscan", "blk": vC02Class(root, scn.Pre, scn.N, scn.CK), "tmpblk": tmpblk, "ntmp": ntmp})
+}
+
+// vC02IndexLines abstracts the lines of an index response by their text alone (the files may change
+// under a concurrent request): "H+<size of the block>" is complete, "H+<size of the placed copy>" is
+// pre, anything else (another name, another size) is other.
+func vC02IndexLines(body string, scn *vC02Scn) []string {
+	hash := vksHash(vC02Block(scn.N))
+	entries := []string{}
+	for _, line := range strings.Split(body, "\n") {
+		if line == "" {
+			continue
+		}
+		cls := "other"
+		if f := strings.Fields(line); len(f) == 2 {
+			switch {
+			case f[0] == fmt.Sprintf("%s+%d", hash, len(vC02Block(scn.N))):
+				cls = "complete"
+			case scn.Pre == "corrupt_old" && f[0] == fmt.Sprintf("%s+%d", hash, len(vC02Corrupt(scn.N, scn.CK))):
+				cls = "pre"
+			}
+		}
+		entries = append(entries, cls)
+	}
+	return entries
+}
+
+// vC02RunIndexSchedule runs the PUT (actor w) and a GET /index (actor x) turn by turn.
+func vC02RunIndexSchedule(srv *vksServer, scn *vC02Scn, reset map[string]interface{}) (putStatus int, entries []string) {
+	block := vC02Block(scn.N)
+	hash := vksHash(block)
+	sched := vNewScheduler(map[string]string{"Compare": "w", "Touch": "w", "WriteBlock": "w", "IndexTo": "x"}, nil, srv.volIndex())
+	vHook.mu.Lock()
+	vHook.sched = sched
+	vHook.mu.Unlock()
+	defer func() {
+		vHook.mu.Lock()
+		vHook.sched = nil
+		vHook.mu.Unlock()
+	}()
+	started := map[string]bool{}
+	finished := map[string]bool{}
+	var mu sync.Mutex
+	start := func(a string) {
+		started[a] = true
+		go func() {
+			if a == "w" {
+				st := srv.do("PUT", "/"+hash, block, vksSysToken).Code
+				mu.Lock()
+				putStatus = st
+				mu.Unlock()
+			} else {
+				resp := httptest.NewRecorder()
+				func() {
+					// IndexTo panics when an entry vanishes under Readdir(1); net/http would recover
+					defer func() { recover() }()
+					req, _ := http.NewRequest("GET", "/index", nil)
+					req.Header.Set("Authorization", "OAuth2 "+vksSysToken)
+					srv.h.ServeHTTP(resp, req)
+				}()
+				e := vC02IndexLines(resp.Body.String(), scn)
+				mu.Lock()
+				entries = e
+				mu.Unlock()
+			}
+			sched.actorDone(a)
+		}()
+		sched.await(a, 20*time.Second)
+	}
+	turn := func(a string) {
+		if !started[a] {
+			start(a)
+			return
+		}
+		if l, _ := sched.await(a, 1500*time.Millisecond); l == "done" {
+			finished[a] = true
+		} else if l != "" {
+			sched.release(a)
+			if l2, _ := sched.await(a, 1500*time.Millisecond); l2 == "done" {
+				finished[a] = true
+			}
+		}
+	}
+	for _, st := range scn.Steps {
+		if st.A == "w" || st.A == "x" {
+			turn(st.A)
+		}
+	}
+	for _, a := range []string{"w", "x"} {
+		if !started[a] {
+			start(a)
+		}
+	}
+	for round := 0; round < 10000 && !(finished["w"] && finished["x"]); round++ {
+		for _, a := range []string{"w", "x"} {
+			if !finished[a] {
+				turn(a)
+			}
+		}
+	}
+	sched.freeAll()
+	reset["order"] = append([]string{}, sched.executed...)
+	mu.Lock()
+	defer mu.Unlock()
+	return putStatus, entries
 }
 
 func vC02WaitQuiet() bool {
@@ -415,6 +525,23 @@ func TestVerifC02(t *testing.T) {
 				vHook.errLabel = scn.Point
 			}
 			vHook.mu.Unlock()
+			if scn.Mode == "index" {
+				os.MkdirAll(filepath.Join(srv.roots[0], hash[:3]), 0755) // the model's IndexTo finds the block directory
+				st, entries := vC02RunIndexSchedule(srv, scn, reset)
+				reset["reached"] = true
+				log(map[string]interface{}{"ev": "outcome", "kind": "reply", "st": st})
+				log(map[string]interface{}{"ev": "indexduring", "entries": entries})
+				if !vC02WaitQuiet() {
+					reset["infra"] = "writer goroutine did not finish"
+				}
+				vHookReset()
+				vC02Observe(srv, scn, log)
+				os.RemoveAll(filepath.Join(srv.roots[0], hash[:3]))
+				for _, ev := range events {
+					tw.Write(ev)
+				}
+				continue
+			}
 			req, _ := http.NewRequest("PUT", "/"+hash, bytes.NewReader(block))
 			req = req.WithContext(context.Background())
 			req.Header.Set("Authorization", "OAuth2 "+vksSysToken)
